@@ -152,8 +152,10 @@ Proof. exact proxy_subscription. Qed.
    history h of conn.addMatch / conn.delMatch calls and signals on the bus,
    each AddMatch / RemoveMatch call being answered by the daemon before the
    next event; `map revent h` is the same history as the router sees it.
-   Hypotheses (those of C12_rule_string): every rule has a constraint and no
-   value contains ',' or '='; callbacks do not call back into the router.
+   Hypotheses: no rule value contains ',' or '=' (as for C12_rule_string; the
+   rule without any constraint, whose text is '' and which the daemon takes
+   as satisfied by every message, is allowed); callbacks do not call back
+   into the router.
 
    For ALL such histories the daemon holds, with multiplicity, exactly the
    texts of the client's live rules; the client's table is the router's. *)
@@ -191,6 +193,19 @@ Example C12_client_nonvacuous :
   snd (crun (firstn 3 w_dup)) = [w_rule_text] /\
   snd (crun w_dup) = [].
 Proof. exact w_dup_ok. Qed.
+
+(* ... and the rule without constraints added, removed and added again:
+   each signal reaches the callback registered at that moment, none reaches
+   a removed one. *)
+Example C12_client_catch_all_nonvacuous :
+  good_history w_catch_all /\
+  ctrace w_catch_all =
+    [ OCAdded [WAdd []] (Ok 0%nat); OCSignal true [(0%nat, 1)];
+      OCDeleted [WRemove []] (Ok tt); OCSignal false [];
+      OCAdded [WAdd []] (Ok 1%nat); OCSignal true [(1%nat, 2)];
+      OCDeleted [] (Err EKey); OCDeleted [WRemove []] (Ok tt);
+      OCSignal false [] ].
+Proof. exact w_catch_all_ok. Qed.
 
 (* The matcher of the pinned commit did not satisfy C12_match_iff: one
    witness per defect (D16 type ignored, D17 namespace sibling, D18 no body,
